@@ -34,8 +34,9 @@ PYCODE = {"type": 0x80040002, "index": 0x80040003, "memory": 0x80040006, "key": 
 
 
 def session_settings(minor):
-    S = nexsettings.default()
-    if minor >= 3: S["nex.struct_header"] = True
+    """settings of a session with configuration `minor` (= PRUDP minor version + 100 * index into R.NEX_VERSIONS)"""
+    S = R.config_settings(minor)
+    if minor % 100 >= 3: S["nex.struct_header"] = True
     return S
 
 
@@ -106,6 +107,8 @@ def cases_for_server(si, idx, rng, tier, minor, all_codes):
         cases.append(mk_case(si, idx, m["id"], body, script("wrong"), "wrong-type:" + m["resp"], "ok", rng))
         if m["resp"] == "m":
             cases.append(mk_case(si, idx, m["id"], body, script("missing"), "missing-field", "ok", rng))
+            for k in ([rng.randrange(len(m["fields"]))] if quick else range(len(m["fields"]))):   # any one field missing
+                cases.append(mk_case(si, idx, m["id"], body, script("missing", k=k), "missing-field", "ok", rng))
         # failure at every point of the response encoding, each followed (in `tails`) by successful calls
         if m["resp"] in ("m", "s"):
             for k in (range(len(m["fields"])) if m["resp"] == "m" else [0]):
@@ -323,15 +326,22 @@ def expectation(case, si, res):
         return answer(("err", PYCODE["other"]))
     if res["value_error"]: return ("skip", "no value")
     if mode == "wrongpos":
-        # the property: a wrongly typed result is answered with the PythonCore code of the exception that the
-        # validation / encoder raises for it — stated on Python's types (RES.incompatible), not on what the encoder did
+        # the property: a wrongly typed result is answered with an error response — the PythonCore code of the exception
+        # that the validation / encoder raises for it — never with a success. WHICH values are wrongly typed is stated on
+        # Python's types (RES.incompatible), not on what the encoder did; the code is that of the exception actually
+        # raised (a different exception class than the model's is a correspondence difference, not a wrong answer)
         w = RES.token_value(sc["w"])
+        def must_fail(cls):
+            o = res["observed"] or ""
+            if o in PYCODE: return answer(("err", PYCODE[o]))
+            if o.startswith("rmc:"): return answer(("err", int(o[4:])))
+            return answer(("err", PYCODE[cls]))      # nothing was raised: the success that was sent is the violation
         if sc["where"].startswith("top."):
             T = eval(m["expected"], importlib.import_module("nintendo.nex." + si["module"]).__dict__)
-            if not isinstance(w, T): return answer(("err", PYCODE["other"]))       # generated isinstance check: RuntimeError
-        if sc["where"] == "in1" and w is None: return answer(("err", PYCODE["other"]))   # check_required: ValueError
+            if not isinstance(w, T): return must_fail("other")       # generated isinstance check: RuntimeError
+        if sc["where"] == "in1" and w is None: return must_fail("other")   # check_required: ValueError
         c = RES.incompatible(sc["slot"], w)
-        if c: return answer(("err", PYCODE[c]))
+        if c: return must_fail(c)
         mode = "partial"    # a value the encoder duck-types (bool for int, tuple for list, anything for bool ...): observed
     if mode == "partial":
         # a late value of the result has the wrong type: which exception its encoder raises depends on the type
@@ -444,18 +454,28 @@ def translate(ctx):
 def run(ctx):
     rng, quick = ctx.rng, ctx.tier == "quick"
     ctx.rule = ("every generated server class x every method id of its table (+ unknown ids, unknown protocols) x scripted user behaviour "
-                "(stub / well-typed result / wrongly typed / incomplete / RMC errors / mapped, subclassed and unmapped exceptions) x request body "
+                "(stub / well-typed result / wrongly typed / incomplete / RMC errors / mapped, subclassed and unmapped exceptions / a result that is well typed "
+                "except for ONE value of any builtin kind at any position: whole result, response field, list element, map key or value, structure "
+                "attribute at any depth) x (PRUDP minor version, NEX version) x request body "
                 "(valid, extended, truncated at every length, random); each request goes through the real RMCClient.start loop and through the Lean model; "
                 "a case is distinct per (class, method, kind, script, body)")
     ctx.assumptions.append("which `except`/`isinstance` clause a given Python exception class matches is modelled (Exc), exercised with subclasses and "
                            "multiple inheritance; user handlers are parameters of the model (their own side effects are outside it); "
                            "BaseExceptions that are not Exceptions and RMCError codes outside 0..2^32-1 end the receive loop (modelled as `propagates`, outside the property's quantifier)")
+    ctx.assumptions.append("wrongly typed results: wrong values are kinds of a finite universe (RmcResult.Atom / Val: scalars, text, bytes, NEX value objects, "
+                           "flat lists / tuples / dicts, opaque objects); values the encoder duck-types (bool for int, tuple for list, any value for bool / "
+                           "stationurl, a Structure of another class at a structure position) are accepted by code and model alike and are not flagged")
     servers, problems, ok, out, failing, mism = translate(ctx)
     all_codes = sorted(errors.error_names.keys())
     jobs = []
     for i, s in enumerate(servers):
-        jobs.append(("server", [s], rng.randrange(1 << 30), ctx.tier, 3 if (i + ctx.seed) % 2 else 0, all_codes, None))
-        if not quick: jobs.append(("server", [s], rng.randrange(1 << 30), ctx.tier, 0 if (i + ctx.seed) % 2 else 3, all_codes, None))
+        nv = len(R.NEX_VERSIONS)
+        ver = 100 * (((i + ctx.seed) // 2) % nv)     # quick: one (minor version, NEX version) per class, rotating with the seed
+        jobs.append(("server", [s], rng.randrange(1 << 30), ctx.tier, (3 if (i + ctx.seed) % 2 else 0) + ver, all_codes, None))
+        if not quick:
+            jobs.append(("server", [s], rng.randrange(1 << 30), ctx.tier, (0 if (i + ctx.seed) % 2 else 3) + ver, all_codes, None))
+            for k in range(1, nv):
+                jobs.append(("server", [s], rng.randrange(1 << 30), ctx.tier, rng.choice([0, 3]) + 100 * ((ver // 100 + k) % nv), all_codes, None))
     for s in (rng.sample(servers, 6) if quick else servers):
         jobs.append(("lethal", [s], rng.randrange(1 << 30), ctx.tier, 0, all_codes, None))
     # long mixed sequences over several servers with distinct protocol ids
@@ -464,7 +484,7 @@ def run(ctx):
         for s in rng.sample(servers, len(servers)):
             if s["protocol"] not in used and len(pick) < 8:
                 pick.append(s); used.add(s["protocol"])
-        jobs.append(("mixed", pick, rng.randrange(1 << 30), ctx.tier, rng.choice([0, 3]), all_codes, 1500 if quick else 6000))
+        jobs.append(("mixed", pick, rng.randrange(1 << 30), ctx.tier, rng.choice([0, 3]) + 100 * rng.randrange(len(R.NEX_VERSIONS)), all_codes, 1500 if quick else 6000))
     par = min(16, os.cpu_count() or 1)
     with multiprocessing.get_context("fork").Pool(par) as pool:
         parts = pool.map(_worker, jobs, chunksize=1)
